@@ -120,10 +120,11 @@ def grammar(dec, blocks):
         B = "[" + re.escape(bl) + "]" if bl else "(?!)"
         D = re.escape(dec)
         integer = r"(?:[0-9]+|[0-9]{1,3}(?:%s[0-9]{3})+)" % B
-        # the fraction is a digit string; digit groups of three separated by a space are tolerated (SI style) — only relevant for
-        # the lenient direction (what an output mn may contain)
-        fraction = r"(?:[0-9]*|(?:[0-9]{3}%s)+[0-9]{1,3})" % re.escape(NBSP)
-        rx = re.compile(r"^(?:%s(?:%s%s)?|%s[0-9]+)$" % (integer, D, fraction, D))
+        # the fraction is a digit string, or (when the locale groups with spaces) digit groups of three (SI / ISO 80000) or of five
+        # (tables of constants: 3.14159 26535 89) separated by a space; other block separators never group fraction digits
+        sp = re.escape(NBSP) if any(c in PREF_SPACES for c in blocks) else "(?!)"
+        fraction = r"(?:[0-9]+|(?:[0-9]{3}%s)+[0-9]{1,3}|(?:[0-9]{5}%s)+[0-9]{1,5})" % (sp, sp)
+        rx = re.compile(r"^(?:%s(?:%s(?:%s)?)?|%s%s)$" % (integer, D, fraction, D, fraction))
         _GRAMMAR_CACHE[key] = rx
     return rx
 
@@ -287,7 +288,17 @@ def gen_number(rng, s, min_parts=2):
         elif kind == "plain":
             parts.append(("d", digits(rng, rng.choice([1, 1, 2, 2, 3, 4, 5, 7]), True) if rng.random() < 0.85 else "0"))
         f = rng.random()
-        if kind == "leading":
+        spaces = [c for c in blocks if c in PREF_SPACES]
+        int_sep = parts[1][1] if len(parts) > 1 else None
+        if spaces and (int_sep is None or int_sep in PREF_SPACES) and rng.random() < 0.22:
+            # fraction digits in groups of three or five, separated by the space that also groups the integer part (if any)
+            g = rng.choice([3, 3, 5])
+            sep = int_sep or rng.choice(spaces)
+            parts += [("m", dec), ("d", digits(rng, g))]
+            for _ in range(rng.choice([0, 1, 1, 2])):
+                parts += [("s", sep), ("d", digits(rng, g))]
+            parts += [("s", sep), ("d", digits(rng, rng.randint(1, g)))]
+        elif kind == "leading":
             parts += [("m", dec), ("d", digits(rng, rng.randint(1, 4)))]
         elif f < 0.55:
             parts += [("m", dec), ("d", digits(rng, rng.choice([1, 1, 2, 2, 3, 3, 4, 5, 6])))]
@@ -296,6 +307,17 @@ def gen_number(rng, s, min_parts=2):
         if len(parts) >= min_parts:
             return parts
     raise RuntimeError("number generator")
+
+
+def fraction_grouping(parts):
+    """0 = fraction digits not grouped (or no fraction); otherwise the size of the groups after the decimal mark"""
+    kinds = [k for k, _ in parts]
+    if "m" not in kinds:
+        return 0
+    after = parts[kinds.index("m") + 1:]
+    if not any(k == "s" for k, _ in after):
+        return 0
+    return len(after[0][1])
 
 
 def tokens_for(rng, parts):
@@ -474,10 +496,18 @@ def gen_observe(rng, s):
             parts += [("s", seps[(i + rng.randrange(2)) % len(seps)]), ("d", digits(rng, 3))]
         toks = tokens_for(rng, parts)
     elif kind in ("grouped-fraction", "five-digit-fraction"):
+        # space-grouped fractions belong to the must-fold domain; here the integer part is grouped by a *visible* separator
+        # (two separator classes in one number) or the last group is over-long
         g = 3 if kind == "grouped-fraction" else 5
-        parts = [("d", digits(rng, rng.randint(1, 3), True)), ("m", dec), ("d", digits(rng, g))]
+        vis = [c for c in blocks if c not in PREF_SPACES]
+        parts = [("d", digits(rng, rng.randint(1, 3), True))]
+        if vis:
+            parts += [("s", rng.choice(vis)), ("d", digits(rng, 3))]
+        parts += [("m", dec), ("d", digits(rng, g))]
         for _ in range(rng.randint(1, 2)):
             parts += [("s", NBSP), ("d", digits(rng, g))]
+        if not vis:
+            parts[-1] = ("d", digits(rng, g + 2))
         toks = tokens_for(rng, parts)
     return kind, [list(p) for p in parts], toks
 
@@ -712,7 +742,8 @@ def pre_key(kind, case):
         return (kind, "fencelist", case["shape"], case["setting"]["dec"])
     parts = case["parts"]
     seps = "".join(sorted(set("␣" if t in ALL_SPACES else t for k, t in parts if k in ("s", "m"))))
-    return (kind, case["half"], case.get("sub"), ctx_family(case["ctx"]), seps, parts[-1][0] == "m", parts[0][0] == "m", case["setting"]["dec"])
+    return (kind, case["half"], case.get("sub"), ctx_family(case["ctx"]), seps, parts[-1][0] == "m", parts[0][0] == "m", case["setting"]["dec"],
+            fraction_grouping(parts))
 
 
 def case_size(case):
@@ -1049,6 +1080,12 @@ def shard(spec):
                         if half == "fold" and st.counters.get("folded_identically", 0) > folded_before:
                             st.nontrivial.add(coverage_key(case))
                             st.add("folded_ctx_x_setting", case["ctx"] + " @ " + setting_class(s).split(" via")[0])
+                            fg = fraction_grouping(case["parts"])
+                            if fg:
+                                st.count("folded_grouped_fraction_%d" % fg)
+                                st.add("folded_fraction_groups", "groups of %d, dec=%s, %s, space tokens %s" % (
+                                    fg, s["dec"], "integer part " + ("absent" if case["parts"][0][0] == "m" else "grouped" if case["parts"][1][0] == "s" else "plain"),
+                                    "+".join(sorted(set(tag for (k, t), (tag, _) in zip(case["parts"], case["tok"]) if k == "s")))))
                             if not st.samples or (len(st.samples) < 2 and rng.random() < 0.02):
                                 st.sample({"setting": s["name"], "split": split_xml(case), "unsplit": unsplit_xml(case), "speech": r[1].get("v"), "braille": r[2].get("v")})
                         elif half == "fencelist":
